@@ -22,7 +22,7 @@
    Not proved (hence partial): that NO internal assertion of a multi-step coroutine can fire for any schedule (1301 is
    evaluated on every trace; two of the four assertion sites need an id-discipline invariant that is not proved);
    the wire layers (JSON / protobuf decoding) are the libraries'. *)
-From RV Require Import Mon MonC13 Valid Route Plug Discipline SysInv PC13 Spec.WitnessD2.
+From RV Require Import Mon MonC13 MonC05 MonC03 MonC05h Valid Route Plug Discipline SysInv PC13 PT05 Spec.WitnessD2.
 
 Theorem C13_front_contract :
   (forall q, req_wf_b q = true -> req_asserts q = true) /\
@@ -84,3 +84,13 @@ Proof.
   repeat constructor; cbn; auto.
 Qed.
 Print Assumptions C13_poison_refuted.
+
+(* one of the internal assertions, for EVERY schedule (Proofs/PT05.v): the registration coroutine (create callback /
+   create subscription) re-reads its promise after an insert that wrote nothing and asserts that the promise exists.
+   The stateful monitor C05ya_mon judges an answer RspPanic to a registration request as a violation (c507_resp), and
+   it is empty on every schedule: the promise was seen by the first read, promises are never deleted, so the re-read
+   finds it whatever was committed in between.  (The other three assertion sites of the model - create-with-task
+   results, the sweep's "every row read is overdue", "created rows = deleted rows" - stay evaluated: clause 1301.) *)
+Theorem C13_registration_never_asserts : forall cfg sch, sch_wf sch -> C05ya_mon (events cfg sch) = [].
+Proof. exact C05ya_trace. Qed.
+Print Assumptions C13_registration_never_asserts.
